@@ -25,13 +25,15 @@ TABLE = [
     ("MIN_AUTHENTICATED", EF, r"let minimum_size = (\d+);\s*for field in &self\.authenticated", "int"),
     ("MIN_ENCRYPTED", EF, r"let minimum_size = (\d+);\s*field\.serialize\(&mut \*w, minimum_size, version\)\?;\s*\}\s*let plaintext_length", "int"),
     ("MIN_V5_PADDING", PK, r"ExtensionField::Padding\(desired_size - written\)\.serialize\(\s*w,\s*(\d+),\s*ExtensionHeaderVersion::V5,", "int"),
-    # which of the two shapes of ExtensionFieldData::serialize is in the tree: the NTS authenticator is written
-    # (0) only when there are authenticated or encrypted fields, (1) also whenever a cipher is available
-    ("SER_AUTH_IF_CIPHER", EF, r"if !self\.authenticated\.is_empty\(\) \|\| !self\.encrypted\.is_empty\(\) \|\| cipher\.is_some\(\) \{", "count"),
-    ("SER_AUTH_IF_FIELDS", EF, r"if !self\.authenticated\.is_empty\(\) \|\| !self\.encrypted\.is_empty\(\)", "count"),
+    # ExtensionFieldData::serialize writes the NTS authenticator exactly when there are authenticated or encrypted fields
+    ("SER_AUTH_IF_FIELDS", EF, r"if !self\.authenticated\.is_empty\(\) \|\| !self\.encrypted\.is_empty\(\) \{\s*let Some\(cipher\) = cipher\.get\(&self\.authenticated\) else", "count"),
+    # which shape nts_timestamp_response has in the tree: take(MAX_COOKIES) before the filter_map (fields looked at)
+    # or after it (cookies handed out)
+    ("TAKE_BEFORE_FILTER_SITES", PK, r"\.chain\(input\.efdata\.encrypted\.iter\(\)\)\s*\.take\(MAX_COOKIES\)\s*\.filter_map", "count"),
+    ("TAKE_AFTER_FILTER_SITES", PK, r"_ => None,\s*\}\)\s*(?://[^\n]*\s*)*\.take\(MAX_COOKIES\)\s*\.collect\(\)", "count"),
     # cookies
     ("RESP_MAX_COOKIES", "ntp-proto/src/cookiestash.rs", r"pub const MAX_COOKIES: usize = (\d+);", "int"),
-    ("TAKE_MAX_COOKIES_SITES", PK, r"\.chain\(input\.efdata\.encrypted\.iter\(\)\)\s*\.take\(MAX_COOKIES\)\s*\.filter_map", "count"),
+    ("TAKE_MAX_COOKIES_SITES", PK, r"\.take\(MAX_COOKIES\)", "count"),
     ("COOKIE_GUARD_SITES", PK, r"if new_cookie\.len\(\) > (?:\*cookie_length as usize|old_cookie\.len\(\)) \{\s*None\s*\} else \{\s*Some\(ExtensionField::NtsCookie\(Cow::Owned\(new_cookie\)\)\)", "count"),
     ("COOKIE_OVERHEAD", KS, r"output\.resize\(output\.len\(\) \+ ([0-9+ ]+), 0\);", "text"),
     ("COOKIE_KEYWIDTH_256", KS, r"AeadAlgorithm::AeadAesSivCmac256 => \{\s*const KEY_WIDTH: usize = (\d+);", "int"),
